@@ -50,8 +50,8 @@ def run_m1(tier, seed, chk=None):
         return res
     shutil.rmtree(d, ignore_errors=True)
     # keep the cache small: drop older runs
-    for old in glob.glob(os.path.join(CACHE, "m1run", "*")):
-        if old != d:
+    for old in glob.glob(os.path.join(CACHE, "m1run", "*_%s_%s" % (tier, seed))):
+        if old != d:   # only stale runs of the same tier and seed: a concurrent run of another tier keeps its directory
             shutil.rmtree(old, ignore_errors=True)
     os.makedirs(d)
     t0 = time.time()
@@ -282,3 +282,29 @@ def planner_dependency(chk):
         if first:
             payload["first_differing_case"] = input_of(res["rows"][int(first[0][0])])
         chk.violation(vflib.write_replay(chk.prop, "correspondence:planner(m1)", payload), True)
+
+
+def eval_on_all_cases(res, fn, imports="Corr Known2 Hyp"):
+    """Evaluate a Gallina boolean `fn : m1_case -> bool` on every generated case (one small .v per shard, in parallel)."""
+    d, meta = res["dir"], res["meta"]
+    shards = sorted(glob.glob(os.path.join(d, "cases_m1_*.v")))
+    sub = os.path.join(d, "hyp_" + fn)
+    os.makedirs(sub, exist_ok=True)
+    for f in shards:
+        name = os.path.basename(f)[:-2]
+        open(os.path.join(sub, "h_%s.v" % name), "w").write(
+            "From VV.M1 Require Import %s.\nFrom Cases Require %s.\nEval vm_compute in map %s %s.cases.\n" % (imports, name, fn, name))
+    flags = vflib.q_flags("m1") + ["-Q", d, "Cases"]
+    from concurrent.futures import ThreadPoolExecutor
+
+    def one(f):
+        rc, out, dt = vflib.sh(["timeout", "900", "coqc", "-noglob"] + flags + [f], cwd=sub, timeout=960)
+        blocks = vflib.parse_eval_outputs(out)
+        return vflib.parse_bool_list(blocks[0]) if rc == 0 and blocks else None
+    with ThreadPoolExecutor(max_workers=16) as ex:
+        parts = list(ex.map(one, sorted(glob.glob(os.path.join(sub, "h_*.v")))))
+    if any(p is None for p in parts):
+        return None
+    flat = [b for p in parts for b in p]
+    # map back to global case indices
+    return {g: flat[k] for k, g in enumerate(meta["idx_map"]) if k < len(flat)}
